@@ -205,7 +205,14 @@ impl TransactionBuilder {
     #[verifier::external_body] pub fn add_regular_input(&mut self, address: &Address, input: &TransactionInput, amount: &Value) -> (r: Result<(), JsError>)
         ensures r is Ok ==> *final(self) == (TransactionBuilder { inputs: old(self).inputs.with_regular(*address, *input, *amount), ..*old(self) }), r is Err ==> *final(self) == *old(self) { unimplemented!() }
     // the balancing routine itself (input selection + change) is NOT under contract: nothing is assumed about what it does to the builder
+    // INTERIOR OBLIGATION of its one caller in this unit (add_inputs_from_and_change_with_collateral_return), stated as a precondition of the stand-in (C06):
+    // while the fee is being estimated, the placeholder collateral return holds the WHOLE value of the collateral inputs and the placeholder total their whole
+    // coin - the largest return / total the final step can set, so the transaction the fee is computed on is not smaller than the final one
     #[verifier::external_body] pub fn add_inputs_from_and_change(&mut self, inputs: &TransactionUnspentOutputs, strategy: CoinSelectionStrategyCIP2, change_config: &ChangeConfig) -> (r: Result<bool, JsError>)
+        requires old(self).collateral_return is Some, old(self).total_collateral is Some,
+                 old(self).collateral_return->Some_0.amount.coin.0 == sum_coin(in_amounts(old(self).collateral.items())),
+                 forall|a: AssetId| qty(old(self).collateral_return->Some_0.amount, a) == sum_qty(in_amounts(old(self).collateral.items()), a),
+                 old(self).total_collateral->Some_0.0 == sum_coin(in_amounts(old(self).collateral.items())),
         ensures final(self).collateral == old(self).collateral, final(self).config == old(self).config { unimplemented!() }
 }
 pub enum CoinSelectionStrategyCIP2 { LargestFirst, RandomImprove, LargestFirstMultiAsset, RandomImproveMultiAsset }
